@@ -303,8 +303,9 @@ pub struct RunOut {
 pub struct Io {
     /// one spurious Pending (with immediate wake) before every chunk
     pub pending: bool,
-    /// max bytes accepted per write (0 = unlimited)
-    pub write_limit: u8,
+    /// max bytes accepted per write (0 = unlimited); 1 and 7 for ordinary cases, thousands for the
+    /// scale class (a socket whose send buffer is smaller than what one batch of replies offers)
+    pub write_limit: u32,
 }
 
 /// Run one connection handler over `chunks` until it returns, or until `turn_budget`
